@@ -56,6 +56,116 @@ pub proof fn lemma_lits_mention(lits: Seq<Literal>, k: int, x: VarLabel)
     if k > 0 && lits[k - 1].lbl != x { lemma_lits_mention(lits, k - 1, x); }
 }
 
+
+// ---- top-down compilation (topdown_h): validity of a diagram for a solver state ----
+/// r is the diagram of the formula under the partial model m: it agrees with the formula on every assignment that
+/// extends m, decides no variable twice and does not decide a variable that m assigns
+pub open spec fn valid_for(r: BddPtr, m: PM, id: int) -> bool {
+    &&& forall|env: Env| #[trigger] tr(env) ==> (agrees(env, m) ==> ptr_sem(r, env) == csem_of(id, env))
+    &&& decides_once(r)
+    &&& forall|x: VarLabel| #[trigger] mentions(r, x) ==> !m.contains_key(x.0)
+}
+/// ... on the half of the assignments where v has value pol; h does not decide v either
+pub open spec fn half_valid(h: BddPtr, m0: PM, v: VarLabel, pol: bool, id: int) -> bool {
+    &&& forall|env: Env| #[trigger] tr(env) ==> (agrees(env, m0) && env(v.0) == pol ==> ptr_sem(h, env) == csem_of(id, env))
+    &&& decides_once(h)
+    &&& forall|x: VarLabel| #[trigger] mentions(h, x) ==> !m0.contains_key(x.0) && x != v
+}
+/// the contract of conjoin_implied as one predicate (trigger for the branch lemma)
+#[verifier::opaque]
+pub open spec fn conj_post(r: BddPtr, nnf: BddPtr, lits: Seq<Literal>) -> bool {
+    &&& forall|env: Env| #[trigger] tr(env) ==> ptr_sem(r, env) == (ptr_sem(nnf, env) && lits_hold(env, lits, lits.len() as int))
+    &&& decides_once(r)
+    &&& forall|x: VarLabel| #[trigger] mentions(r, x) ==> mentions(nnf, x) || lits_mention(lits, lits.len() as int, x)
+}
+/// the contract of get_or_insert as one predicate (trigger for the combine lemma)
+#[verifier::opaque]
+pub open spec fn dnode_post(r: BddPtr, bdd: BddNode) -> bool {
+    &&& forall|env: Env| #[trigger] tr(env) ==> ptr_sem(r, env) == node_sem(bdd, env)
+    &&& forall|x: VarLabel| #[trigger] mentions(r, x) == (x == bdd.var || mentions(bdd.low, x) || mentions(bdd.high, x))
+    &&& decides_once(r) == (!mentions(bdd.low, bdd.var) && !mentions(bdd.high, bdd.var) && decides_once(bdd.low) && decides_once(bdd.high))
+}
+/// component cache: an entry is valid for every solver state with that residual hash
+pub open spec fn tcache_ok(c: FxHashMap<u128, BddPtr>, id: int) -> bool {
+    forall|h: u128, v: BddPtr| #[trigger] c.entries().contains((h, v)) ==> forall|m: PM| #[trigger] hash_of(id, m) == h ==> valid_for(v, m, id)
+}
+
+pub proof fn lemma_lits_hold_at(env: Env, lits: Seq<Literal>, k: int, i: int)
+    requires lits_hold(env, lits, k), 0 <= i < k,
+    ensures env(lits[i].lbl.0) == lits[i].pol,
+    decreases k,
+{
+    if i < k - 1 { lemma_lits_hold_at(env, lits, k - 1, i); }
+}
+pub proof fn lemma_lits_hold_from_agree(env: Env, lits: Seq<Literal>, k: int, m: PM)
+    requires agrees(env, m), 0 <= k <= lits.len(),
+        forall|i: int| 0 <= i < lits.len() ==> m.contains_key((#[trigger] lits[i]).lbl.0) && m[lits[i].lbl.0] == lits[i].pol,
+    ensures lits_hold(env, lits, k),
+    decreases k,
+{
+    if k > 0 { lemma_lits_hold_from_agree(env, lits, k - 1, m); assert(m.contains_key(lits[k - 1].lbl.0)); }
+}
+
+/// one branch of a decision: the solver pushed m2 for `lit`; `sub` is valid for m2; `high` = sub conjoined with the
+/// implied literals.  Then `high` is right on every assignment that extends m0 and gives lit's variable lit's value.
+pub proof fn lemma_branch(id: int, m0: PM, lit: Literal, sat: bool, m2: PM, lits: Seq<Literal>, sub: BddPtr, high: BddPtr)
+    requires
+        decide_ok(id, m0, lit, sat, m2), !m0.contains_key(lit.lbl.0), implied_ok(lits, m0, m2, lit.lbl),
+        conj_post(high, sub, lits), valid_for(sub, m2, id),
+    ensures half_valid(high, m0, lit.lbl, lit.pol, id),
+{
+    reveal(decide_ok); reveal(implied_ok); reveal(conj_post);
+    let n = lits.len() as int;
+    let v = lit.lbl;
+    assert forall|env: Env| #[trigger] tr(env) implies (agrees(env, m0) && env(v.0) == lit.pol ==> ptr_sem(high, env) == csem_of(id, env)) by {
+        if agrees(env, m0) && env(v.0) == lit.pol {
+            if lits_hold(env, lits, n) {
+                // env extends m2: old assignments, the decided literal, and every implied literal
+                assert forall|x: u64| #[trigger] m2.contains_key(x) implies env(x) == m2[x] by {
+                    if m0.contains_key(x) { } else if x == v.0 { } else {
+                        let i = choose|i: int| 0 <= i < lits.len() && (#[trigger] lits[i]).lbl.0 == x;
+                        lemma_lits_hold_at(env, lits, n, i);
+                    }
+                }
+                assert(agrees(env, m2));
+            } else {
+                if csem_of(id, env) { lemma_lits_hold_from_agree(env, lits, n, m2); }
+            }
+        }
+    }
+    assert forall|x: VarLabel| #[trigger] mentions(high, x) implies !m0.contains_key(x.0) && x != v by {
+        if mentions(sub, x) { assert(!m2.contains_key(x.0)); }
+        else { lemma_lits_mention(lits, n, x); }
+    }
+}
+/// a SAT answer makes the true diagram valid for the pushed model
+pub proof fn lemma_true_valid(id: int, m0: PM, lit: Literal, m2: PM)
+    requires decide_ok(id, m0, lit, true, m2),
+    ensures valid_for(BddPtr::PtrTrue, m2, id),
+{
+    reveal(decide_ok);
+}
+pub proof fn lemma_unsat_half(id: int, m0: PM, lit: Literal)
+    requires decide_unsat(id, m0, lit),
+    ensures half_valid(BddPtr::PtrFalse, m0, lit.lbl, lit.pol, id),
+{
+    reveal(decide_unsat);
+}
+/// the two halves give the whole: either both branches are the same diagram, or a node on v
+pub proof fn lemma_combine_eq(id: int, m0: PM, v: VarLabel, low: BddPtr, high: BddPtr)
+    requires half_valid(high, m0, v, true, id), half_valid(low, m0, v, false, id), PartialEqSpec::eq_spec(&high, &low),
+    ensures valid_for(high, m0, id),
+{
+    axiom_bddptr_eq();
+}
+pub proof fn lemma_combine_node(id: int, m0: PM, v: VarLabel, low: BddPtr, high: BddPtr, n: BddNode, r: BddPtr)
+    requires half_valid(high, m0, v, true, id), half_valid(low, m0, v, false, id), !m0.contains_key(v.0),
+        n.var == v, n.low == low, n.high == high, dnode_post(r, n),
+    ensures valid_for(r, m0, id),
+{
+    reveal(dnode_post);
+}
+
 pub trait TopDownBuilder<'a> {
     fn var(&'a self, label: VarLabel, polarity: bool) -> (r: BddPtr<'a>)
         ensures forall|env: Env| #[trigger] tr(env) ==> ptr_sem(r, env) == (env(label.0) == polarity);
@@ -67,9 +177,15 @@ pub trait TopDownBuilder<'a> {
 }
 
 pub trait DecisionNNFBuilder<'a>: TopDownBuilder<'a> {
+    /// the builder's variable order (fixed)
+    spec fn order_s(&self) -> VarOrder;
+    fn order(&'a self) -> (r: &'a VarOrder)
+        ensures *r == self.order_s();
+
     /// Normalizes and fetches a node from the store
     fn get_or_insert(&'a self, bdd: BddNode<'a>) -> (r: BddPtr<'a>)
         ensures
+            dnode_post(r, bdd),
             forall|env: Env| #[trigger] tr(env) ==> ptr_sem(r, env) == node_sem(bdd, env),
             is_node(r), node_of(r).var == bdd.var,
             node_of(r).low == (if r is Compl { bdd.low.neg_s() } else { bdd.low }),
@@ -95,9 +211,10 @@ pub trait DecisionNNFBuilder<'a>: TopDownBuilder<'a> {
             forall|env: Env| #[trigger] tr(env) ==> ptr_sem(r, env) == (ptr_sem(nnf, env) && lits_hold(env, literals.lits(), literals.lits().len() as int)),
             decides_once(r),
             forall|x: VarLabel| #[trigger] mentions(r, x) ==> mentions(nnf, x) || lits_mention(literals.lits(), literals.lits().len() as int, x),
+            conj_post(r, nnf, literals.lits()),
 //%% @entry
         let ghost lits0 = literals.lits();
-        proof { tr_all(); axiom_bddptr_eq(); }
+        proof { tr_all(); axiom_bddptr_eq(); reveal(conj_post); }
 //%% @loop 1 /^for l__r in it: lits__v\.iter\(\)$/
             invariant
                 lits__v@ == lits0, decides_once(nnf), decides_once(sub), !(nnf is PtrFalse),
@@ -112,6 +229,106 @@ pub trait DecisionNNFBuilder<'a>: TopDownBuilder<'a> {
                 let k = it.index@ as int;
                 assert(!mentions(sub, lits0[k].lbl)) by {
                     if mentions(sub, lits0[k].lbl) { lemma_lits_mention(lits0, k, lits0[k].lbl); }
+                }
+            }
+//%% end
+
+// R-iter (A-sat): `sat.difference_iter().filter(|x| x.label() != cur_v)` is the stub method `sat.verif_implied_except(cur_v)`;
+// the solver itself, the component cache's hash map and the formula are the stubs of trusted/sat_stub.rs, fxhashmap.rs, cnf_stub.rs
+//%% extract src/builder/decision_nnf/builder.rs :: trait DecisionNNFBuilder<'a>: TopDownBuilder<'a, BddPtr<'a>> :: fn topdown_h
+//%% @attr #[verifier::exec_allows_no_decreases_clause]
+//%% @ret r
+//%% @rewrite 4 /sat\.difference_iter\(\)\.filter\(\|x\| x\.label\(\) != cur_v\)/ => sat.verif_implied_except(cur_v)
+//%% @spec
+        requires
+            old(sat).wf(), tcache_ok(*old(cache), old(sat).id()),
+            self.order_s().wf(), self.order_s().n() == old(sat).nv(), cnf.nv_s() == old(sat).nv(),
+            // every variable at a level above `level` is already assigned
+            forall|l: int| 0 <= l < level && l < self.order_s().pos_to_var.len() ==> old(sat).top().contains_key(#[trigger] self.order_s().pos_to_var[l] as u64),
+        ensures
+            final(sat).stack() == old(sat).stack(), final(sat).id() == old(sat).id(), final(sat).nv() == old(sat).nv(), final(sat).wf(),
+            tcache_ok(*final(cache), old(sat).id()),
+            // the result is the diagram of the formula under the current partial model
+            valid_for(r, old(sat).top(), old(sat).id()),
+//%% @entry
+        let ghost id = sat.id();
+        let ghost m0 = sat.top();
+        let ghost nv = sat.nv();
+        proof {
+            tr_all(); axiom_bddptr_eq(); axiom_reshash(id); reveal(VarOrder::wf); reveal(implied_ok);
+            assert forall|st: Seq<PM>, x: PM| #[trigger] st.push(x).drop_last() == st by { assert(st.push(x).drop_last() =~= st); }
+            // all variables assigned => the formula holds (base case `level >= num_vars`)
+            if level >= nv {
+                reveal(VarOrder::wf);
+                assert forall|x: u64| (x as nat) < nv implies #[trigger] m0.contains_key(x) by {
+                    let l = self.order_s().var_to_pos[x as int] as int;
+                    assert(self.order_s().pos_to_var[l] == x as int);
+                }
+                assert(sound_model(id, nv, sat.stack()[sat.stack().len() - 1]));
+            }
+            // Q0: a SAT answer makes `true` valid for the pushed model
+            assert forall|lit: Literal, m2: PM| #[trigger] decide_ok(id, m0, lit, true, m2) implies valid_for(BddPtr::PtrTrue, m2, id) by { lemma_true_valid(id, m0, lit, m2); }
+            // Q1: one branch
+            assert forall|lit: Literal, sat_: bool, m2: PM, lits: Seq<Literal>, sub: BddPtr, high: BddPtr|
+                #![trigger decide_ok(id, m0, lit, sat_, m2), implied_ok(lits, m0, m2, lit.lbl), conj_post(high, sub, lits)]
+                decide_ok(id, m0, lit, sat_, m2) && !m0.contains_key(lit.lbl.0) && implied_ok(lits, m0, m2, lit.lbl) && conj_post(high, sub, lits) && valid_for(sub, m2, id)
+                implies half_valid(high, m0, lit.lbl, lit.pol, id) by { lemma_branch(id, m0, lit, sat_, m2, lits, sub, high); }
+            // Q2: an UNSAT branch
+            assert forall|lit: Literal| #[trigger] decide_unsat(id, m0, lit) implies half_valid(BddPtr::PtrFalse, m0, lit.lbl, lit.pol, id) by { lemma_unsat_half(id, m0, lit); }
+            // Q3: the two halves
+            assert forall|v: VarLabel, low: BddPtr, high: BddPtr| #![trigger half_valid(high, m0, v, true, id), half_valid(low, m0, v, false, id)]
+                half_valid(high, m0, v, true, id) && half_valid(low, m0, v, false, id) && PartialEqSpec::eq_spec(&high, &low)
+                implies valid_for(high, m0, id) by { lemma_combine_eq(id, m0, v, low, high); }
+            assert forall|v: VarLabel, low: BddPtr, high: BddPtr, n: BddNode, rr: BddPtr| #![trigger half_valid(high, m0, v, true, id), half_valid(low, m0, v, false, id), dnode_post(rr, n)]
+                half_valid(high, m0, v, true, id) && half_valid(low, m0, v, false, id) && !m0.contains_key(v.0) && n.var == v && n.low == low && n.high == high && dnode_post(rr, n)
+                implies valid_for(rr, m0, id) by { lemma_combine_node(id, m0, v, low, high, n, rr); }
+        }
+//%% end
+
+// R-iter (A-sat): `SATSolver::new(cnf.clone())`, `&mut FxHashMap::default()` and the final `sat.difference_iter()` are the stubs
+// of trusted/sat_stub.rs; the loop that conjoins the initially implied literals is the real text
+//%% extract src/builder/decision_nnf/builder.rs :: trait DecisionNNFBuilder<'a>: TopDownBuilder<'a, BddPtr<'a>> :: fn compile_cnf_topdown
+//%% @attr #[verifier::loop_isolation(false)]
+//%% @ret r
+//%% @rewrite 1 /SATSolver::new\(cnf\.clone\(\)\)/ => verif_solver_new(cnf)
+//%% @rewrite 1 /let mut r = self\.topdown_h\(cnf, &mut sat, 0, &mut FxHashMap::default\(\)\);/ => let mut cache__v = verif_empty_cache();\n        let mut r = self.topdown_h(cnf, &mut sat, 0, &mut cache__v);
+//%% @rewrite 1 /for l in sat\.difference_iter\(\) \{/ => let lits__v = verif_lits_vec(sat.verif_implied_all());\n        for l__r in it: lits__v.iter() {\n            let l = *l__r;
+//%% @spec
+        requires self.order_s().wf(), self.order_s().n() == cnf.nv_s(),
+        ensures
+            // the diagram has exactly the models of the formula (relative to the solver contract A-sat / A-reshash)
+            forall|env: Env| #[trigger] tr(env) ==> ptr_sem(r, env) == csem_of(cnf.id_s(), env),
+            decides_once(r),
+//%% @entry
+        let ghost id = cnf.id_s();
+        proof {
+            tr_all(); axiom_bddptr_eq(); reveal(init_ok); reveal(implied_all_ok); reveal(dnode_post);
+            // the implied literals hold exactly on the assignments that extend the model they come from
+            assert forall|env: Env, lits: Seq<Literal>, top: PM| #![trigger tr(env), implied_all_ok(lits, Map::<u64, bool>::empty(), top)]
+                implied_all_ok(lits, Map::<u64, bool>::empty(), top) implies (lits_hold(env, lits, lits.len() as int) == agrees(env, top)) by {
+                if agrees(env, top) { lemma_lits_hold_from_agree(env, lits, lits.len() as int, top); }
+                if lits_hold(env, lits, lits.len() as int) {
+                    assert forall|x: u64| #[trigger] top.contains_key(x) implies env(x) == top[x] by {
+                        let i = choose|i: int| 0 <= i < lits.len() && (#[trigger] lits[i]).lbl.0 == x;
+                        lemma_lits_hold_at(env, lits, lits.len() as int, i);
+                    }
+                }
+            }
+        }
+//%% @loop 1 /^for l__r in it: lits__v\.iter\(\)$/
+            invariant
+                decides_once(r),
+                forall|i: int, j: int| 0 <= i < j < lits__v.len() ==> (#[trigger] lits__v@[i]).lbl != (#[trigger] lits__v@[j]).lbl,
+                forall|i: int| 0 <= i < lits__v.len() ==> sat.top().contains_key((#[trigger] lits__v@[i]).lbl.0),
+                forall|x: VarLabel| #[trigger] mentions(r, x) ==> !sat.top().contains_key(x.0) || lits_mention(lits__v@, it.index@ as int, x),
+                exists|r0: BddPtr| valid_for(r0, sat.top(), id) && !(r0 is PtrFalse)
+                    && forall|env: Env| #[trigger] tr(env) ==> ptr_sem(r, env) == (ptr_sem(r0, env) && lits_hold(env, lits__v@, it.index@ as int)),
+//%% @loopbody 1
+            proof {
+                tr_all();
+                let k = it.index@ as int;
+                assert(!mentions(r, lits__v@[k].lbl)) by {
+                    if mentions(r, lits__v@[k].lbl) { lemma_lits_mention(lits__v@, k, lits__v@[k].lbl); }
                 }
             }
 //%% end
@@ -161,10 +378,15 @@ where
 }
 
 impl<'a> DecisionNNFBuilder<'a> for StandardDecisionNNFBuilder<'a> {
+    open spec fn order_s(&self) -> VarOrder { self.order_view() }
+//%% extract src/builder/decision_nnf/standard.rs :: impl<'a> DecisionNNFBuilder<'a> for StandardDecisionNNFBuilder<'a> :: fn order
+//%% @rewrite 1 /&self\.order/ => self.order_ref()
+//%% end
+
 //%% extract src/builder/decision_nnf/standard.rs :: impl<'a> DecisionNNFBuilder<'a> for StandardDecisionNNFBuilder<'a> :: fn get_or_insert
 //%% @rewrite 1 /\/\/ TODO make this safe\n        unsafe \{\n            let tbl = &mut \*self\.compute_table\.as_ptr\(\);\n/ => {\n
 //%% @rewrite 2 /tbl\.get_or_insert\(/ => self.table_get_or_insert(
 //%% @entry
-        proof { lemma_neg_mentions(); }
+        proof { lemma_neg_mentions(); reveal(dnode_post); }
 //%% end
 }
